@@ -62,6 +62,12 @@ let register (reg : ostring -> (ostring list -> ostring list) -> (ostring list -
     | [runs; _sf; _hf; pause; timeout] ->
       let p = if pause = "1" && timeout <> "1" then runs else "0" in
       List.map (fun n -> Printf.sprintf "%s:%s/%s:%s:%s" n runs runs p runs) ["orders"; "payments"]
+    | [runs; _sf; _hf; pause; timeout; del] ->
+      (* C15: every accepted deletion request is served (the delete function is retried until it succeeds): all runs end
+         DataDeleted, scrubbed by the custom function *)
+      let p = if pause = "1" && timeout <> "1" then runs else "0" in
+      List.map (fun n -> if del = "0" then Printf.sprintf "%s:%s/%s:%s:%s" n runs runs p runs
+                         else Printf.sprintf "%s:%s/%s:%s:%s:%s" n runs runs p runs runs) ["orders"; "payments"]
     | _ -> failwith "twowf arity") in
   reg "twowf" twowf (equal_monitor twowf);
   reg "ctl" ctl_model ctl_monitor;
